@@ -10,9 +10,12 @@
  is either empty or holds a public-key value (bls.go: prKeyBLSBLS12381.pk).
    PK(i)        PublicKey(): computes scalar*g2 on first use and keeps it   (bls.go:418-424)
    Redecode(i)  DecodePrivateKey(Encode()): a fresh object, same scalar, empty cache
-   Agg(S)       AggregateBLSPrivateKeys over the objects S (as a list in index
-                order): a fresh object with the sum of the scalars; in the
-                design its cache is empty whatever the caches of the inputs are
+   PKAll        PublicKey() on every object of the pool (one step, so that the
+                "all inputs cached" situations are reached by short behaviours)
+   Agg(s)       AggregateBLSPrivateKeys over the list s of 2..3 objects, repeats
+                allowed (the same object twice, a key next to a sum that contains
+                it): a fresh object with the sum of the scalars; in the design its
+                cache is empty whatever the caches of the inputs are
                                                                               (bls_multisig.go:95-125)
  The pool starts with the two base objects with empty caches.  Every behaviour
  of at most MaxLen actions is printed; the harness executes it on real objects
@@ -42,26 +45,35 @@ vars == <<pool, hist>>
 Init == /\ pool = <<[val |-> Unit("a"), cache |-> NONE], [val |-> Unit("b"), cache |-> NONE]>>
         /\ hist = <<>>
 
-RECURSIVE SumOver(_, _)
-SumOver(S, f) == IF S = {} THEN Zero ELSE LET i == CHOOSE j \in S : TRUE IN Plus(f[i], SumOver(S \ {i}, f))
+RECURSIVE SumSeq(_, _)
+SumSeq(s, f) == IF s = <<>> THEN Zero ELSE Plus(f[Head(s)], SumSeq(Tail(s), f))
+\* lists of 2..3 pool indices, non-decreasing (the order of the list is immaterial: the harness permutes it)
+Lists(n) == {<<i, j>> : i \in 1..n, j \in 1..n} \cup {<<i, j, k>> : i \in 1..n, j \in 1..n, k \in 1..n}
+NonDecreasing(s) == \A k \in 1..(Len(s) - 1) : s[k] <= s[k + 1]
 
 PK(i) == /\ pool' = [pool EXCEPT ![i].cache = IF @ = NONE THEN pool[i].val ELSE @]
-         /\ hist' = Append(hist, [op |-> "PK", i |-> i, s |-> {}])
+         /\ hist' = Append(hist, [op |-> "PK", i |-> i, s |-> <<>>])
 
 Redecode(i) == /\ Len(pool) < MaxPool
                /\ pool' = Append(pool, [val |-> pool[i].val, cache |-> NONE])
-               /\ hist' = Append(hist, [op |-> "Redecode", i |-> i, s |-> {}])
+               /\ hist' = Append(hist, [op |-> "Redecode", i |-> i, s |-> <<>>])
 
-Agg(S) == /\ Len(pool) < MaxPool
-          /\ LET sum    == SumOver(S, [i \in S |-> pool[i].val])
-                 filled == {i \in S : pool[i].cache # NONE}
-                 stale  == IF StaleBug /\ filled # {} THEN SumOver(filled, [i \in filled |-> pool[i].cache]) ELSE NONE IN
+PKAll == /\ \E i \in 1..Len(pool) : pool[i].cache = NONE
+         /\ pool' = [i \in 1..Len(pool) |-> [pool[i] EXCEPT !.cache = IF @ = NONE THEN pool[i].val ELSE @]]
+         /\ hist' = Append(hist, [op |-> "PKAll", i |-> 0, s |-> <<>>])
+
+Agg(s) == /\ Len(pool) < MaxPool
+          /\ LET vals   == [i \in 1..Len(pool) |-> pool[i].val]
+                 sum    == SumSeq(s, vals)
+                 filled == SelectSeq(s, LAMBDA i : pool[i].cache # NONE)
+                 stale  == IF StaleBug /\ filled # <<>> THEN SumSeq(filled, [i \in 1..Len(pool) |-> pool[i].cache]) ELSE NONE IN
              pool' = Append(pool, [val |-> sum, cache |-> stale])
-          /\ hist' = Append(hist, [op |-> "Agg", i |-> 0, s |-> S])
+          /\ hist' = Append(hist, [op |-> "Agg", i |-> 0, s |-> s])
 
 Next == \/ /\ Len(hist) < MaxLen
            /\ \/ \E i \in 1..Len(pool) : PK(i) \/ Redecode(i)
-              \/ \E S \in SUBSET (1..Len(pool)) : Cardinality(S) \in 2..3 /\ Agg(S)
+              \/ PKAll
+              \/ \E s \in Lists(Len(pool)) : NonDecreasing(s) /\ Agg(s)
         \/ (Len(hist) = MaxLen /\ UNCHANGED vars)
 Spec == Init /\ [][Next]_vars
 
